@@ -357,7 +357,7 @@ class Exec(CallsMixin, Interp):
         names, fields, calls = stored_names(body)
         for n in inv.modifies_extra:
             if '.' in n:
-                self.havoc_field(n)
+                self.havoc_field(n.split('[')[0])
             else:
                 names.add(n)
         # callee effects (receiver class resolved through the current environment where possible)
@@ -395,8 +395,10 @@ class Exec(CallsMixin, Interp):
                         elif m == '*heap':
                             for key in self.all_heap_keys():
                                 self.havoc_field(key)
+                        elif m == '*ghost':
+                            names |= set(self.w.ghost)
                         else:
-                            self.havoc_field(m)
+                            self.havoc_field(m.split('[')[0])
                     if cc.inline and cc.module:
                         from . import extract
                         ex = extract.find(cc.module, cc.name)
@@ -697,6 +699,9 @@ class Exec(CallsMixin, Interp):
                 for o in out:
                     s = K.seq_append(s, o)
                 return s
+            if tag == 'set':
+                src = self.set_to_seq(src)
+                tag = 'seq'
             if tag == 'seq' and not g.ifs:
                 q = self.p.fresh('comp!i', z3.IntSort())
                 self.assign_to(g.target, K.seq_get(src, q))
